@@ -174,6 +174,27 @@ func (e *c12Env) run(c c12Case) (obs, bad string) {
 	}
 	var results []string
 	var kept []retained
+	// errors are returned values too: their text, read again after the caller has overwritten its arguments (and
+	// after later calls), must be what it was when they were returned
+	type keptErr struct {
+		err        error
+		text, from string
+	}
+	var keptErrs []keptErr
+	keepErr := func(from string, err error) error {
+		if err != nil {
+			keptErrs = append(keptErrs, keptErr{err, errText(err), from})
+		}
+		return err
+	}
+	errsChanged := func() string {
+		for _, k := range keptErrs {
+			if now := errText(k.err); now != k.text {
+				return fmt.Sprintf("the error returned by %s reads differently now: was %q, now %q (it shares memory with an argument)", k.from, k.text, now)
+			}
+		}
+		return ""
+	}
 	t := time.Unix(1111111109, 0)
 	up := otp.URLParam{Issuer: "My Company", AccountName: "a b@x", Secret: sec, Digits: caller.Digits, Algorithm: caller.Algorithm, Period: caller.Period}
 	upCopy := up
@@ -185,10 +206,13 @@ func (e *c12Env) run(c c12Case) (obs, bad string) {
 	// holding the same value sees it)
 	var duringExtra func() string
 	duringBad := ""
+	inHook := false
 	irt.SetPointHook(func() {
-		if duringBad != "" {
+		if duringBad != "" || inHook {
 			return
 		}
+		inHook = true // formatting a finding may run library code (String methods), which is instrumented too
+		defer func() { inHook = false }()
 		switch {
 		case a.changed() != "":
 			duringBad = "caller's bytes modified: " + a.changed()
@@ -217,6 +241,7 @@ func (e *c12Env) run(c c12Case) (obs, bad string) {
 					su = &rawCfg
 				}
 				s, err := otp.GenerateOCRA(sec, su, in)
+				keepErr(op, err)
 				results = append(results, s+errStr(err))
 				retain(&kept, op, []string{s})
 			case "ValidateOCRA":
@@ -232,6 +257,7 @@ func (e *c12Env) run(c c12Case) (obs, bad string) {
 					su = &rawCfg
 				}
 				ok, err := otp.ValidateOCRA(sec, code, su, in)
+				keepErr(op, err)
 				results = append(results, fmt.Sprint(ok, err != nil))
 				// and the RIGHT code (taken from a generation on private copies of everything): an accepted validation
 				// must leave the caller's input alone just the same, and accept it a second time
@@ -244,7 +270,7 @@ func (e *c12Env) run(c c12Case) (obs, bad string) {
 					}
 				}
 			case "OCRAInput.Validate":
-				results = append(results, errStr(in.Validate(cfg)))
+				results = append(results, errStr(keepErr(op, in.Validate(cfg))))
 			case "padBytes":
 				for _, w := range []int{8, 128} {
 					for _, f := range [][]byte{in.Counter, in.Challenge, in.SessionInfo} {
@@ -484,6 +510,9 @@ func (e *c12Env) run(c c12Case) (obs, bad string) {
 	}
 	inCopy = otp.OCRAInput{Counter: clone(in.Counter), Challenge: clone(in.Challenge), Password: clone(in.Password), SessionInfo: clone(in.SessionInfo), Timestamp: clone(in.Timestamp)}
 	if ch := retainedChanged(kept); ch != "" {
+		return obs, "after the caller overwrote its arguments: " + ch
+	}
+	if ch := errsChanged(); ch != "" {
 		return obs, "after the caller overwrote its arguments: " + ch
 	}
 	if c.Then != "" {
